@@ -27,10 +27,26 @@ impl Prop for C40 {
             item: 1,
             delitem: 1,
             pubmode: 1,
+            modsub: 1,
+            setmode: 1,
+            moditem: 1,
+            trigger: 1,
+            resend: 1,
+            transfer: 1,
             max_len: 50,
         };
-        for _ in 0..n {
-            gen_case(rng, &w, tier == Tier::Thorough, out);
+        // a third of the cases (all of them when there is room) are the single-step enumeration
+        let singles = if n >= 3 * single_step_count() / 2 { single_step_count() } else { n / 3 };
+        let off = rng.below(single_step_count() as u64) as usize;
+        for i in 0..singles {
+            gen_single_step(off + i, out);
+        }
+        for _ in 0..(n - singles) {
+            if rng.chance(1, 5) {
+                gen_scenario(rng, out);
+            } else {
+                gen_case(rng, &w, tier == Tier::Thorough, out);
+            }
         }
     }
 
